@@ -99,9 +99,37 @@ inductive Err
       returned with the fuel `step` supplies (`cascade_terminates`), but it is what the harness reports
       for a tree whose recursion is unbounded (the code before bda5470) -/
   | diverge
+  /-- an entity constraint of the caller (`EntityConstraint.ProcessPreCommit` on store A) refused the delete of
+      the protected entity (`Schema.protect`) -/
+  | veto
 deriving DecidableEq, Repr
 
 abbrev Res := Except Err St
+
+/-- how the fk fields owner, boss, dep, mentor, guard are named: each has a symbol name `f` (what queries and
+    the constraints use), a stored key (what the entity strategy persists under: `AddFkSymbolWithKey`) and a
+    caller-side name (what the `FieldChecker` of an update is asked for: `PersistContext.WithFieldOverrides`) -/
+inductive Naming
+  /-- all three are `f` -/
+  | same
+  /-- key = caller-side name = `fId` -/
+  | keyed
+  /-- key = `fId`, caller-side name = `f` (an override) -/
+  | overridden
+  /-- key = `fId`, caller-side name = `fRef` -/
+  | allDifferent
+deriving DecidableEq, Repr
+
+/-- `TypedBucket.ProceedWithSet(key, checker)` under `MappedFieldChecker`: does a checker that lists the field's
+    caller-side name (`chk`), its stored key (`key`), its symbol name (`sym`) select the field?  Only the
+    caller-side name does — the other two only where the naming makes them the same string.  (The constraints
+    never consult the checker: what a selected field's new value means for the indexes does not depend on any
+    of these names.) -/
+def Naming.selects : Naming → (chk key sym : Bool) → Bool
+  | .same, c, k, y => c || k || y
+  | .keyed, c, k, _ => c || k
+  | .overridden, c, _, y => c || y
+  | .allDifferent, c, _, _ => c
 
 /-- schema variant -/
 structure Schema where
@@ -118,7 +146,14 @@ structure Schema where
   fk2 : Bool := false
   /-- `RegisterChildStoreStrategy` was called for C2 before C -/
   c2First : Bool := false
+  naming : Naming := .same
+  /-- an A entity whose delete an `EntityConstraint` registered on store A refuses (`ProcessPreCommit` returns an
+      error for `EntityDeleted` of this id) while the current operation runs; `none`: no such constraint is active.
+      It is how a cascading delete can FAIL part-way in this universe (a transitive referrer refuses to go). -/
+  protect : Option Bytes := none
 deriving DecidableEq, Repr
+
+def Schema.withProtect (σ : Schema) (v : Bytes) : Schema := { σ with protect := some v }
 
 def Schema.idx (σ : Schema) : Child → Bool
   | .c1 => σ.idx1
@@ -432,7 +467,8 @@ def deleteA (σ : Schema) : Nat → List Bytes → St → Bytes → Res
       match (roundsOf σ s id).foldlM (roundA σ (deleteA σ n) prog id) s with    -- the rounds
       | .ok s1 =>
         if s1.as.contains id then                                               -- bucket.DeleteEntity(id)
-          .ok { s1 with as := s1.as.erase id, minions := s1.minions.erase id }
+          if σ.protect = some id then .error .veto                              -- changeFlow.fireEvents: pre-commit veto
+          else .ok { s1 with as := s1.as.erase id, minions := s1.minions.erase id }
         else .error .other
       | .error e => .error e
     else .error .notFound
@@ -488,6 +524,9 @@ inductive Op
   | createC (c : Child) (id : Bytes) (e : EntA) (x : Ext)
   | updateC (c : Child) (id : Bytes) (e : EntA) (x : Ext) (mOwner mBoss mDep mTag mM mG : Bool)
   | deleteC (id : Bytes)
+  /-- `DeleteById` on A / on B while the caller's entity constraint protects A entity `v` -/
+  | deleteAV (id v : Bytes)
+  | deleteBV (id v : Bytes)
 deriving Repr
 
 def apply (σ : Schema) (s : St) : Op → Res
@@ -499,6 +538,8 @@ def apply (σ : Schema) (s : St) : Op → Res
   | .createC c id e x => createC σ c s id e x
   | .updateC c id e x mo mb md mt mm mg => updateC σ c s id e x mo mb md mt mm mg
   | .deleteC id => deleteA σ (fuelOf s) [] s id                 -- `store.parent.DeleteById`
+  | .deleteAV id v => deleteA (σ.withProtect v) (fuelOf s) [] s id
+  | .deleteBV id v => deleteB (σ.withProtect v) s id
 
 /-- one operation in its own transaction: an error rolls back -/
 def step (σ : Schema) (s : St) (op : Op) : St × Option Err :=
